@@ -1,4 +1,5 @@
 import ArtapModel.Proofs.Concurrency
+import ArtapModel.Proofs.ConcEval
 /-!
 # C07 — Parallel evaluation is equivalent to serial evaluation under every schedule
 
@@ -124,6 +125,185 @@ theorem no_stray_calls (P : Prob) (ds : List Design) (σ : List Nat) (t : Nat) (
   rw [run_calls (jobProg P) (init_wf ds) σ t, view_none_of_ge (init_wf ds) ht]
   simp [init]
 
+/-! ## Refinement to the sequential model of Job.evaluate
+
+`jobProg P` was written by hand next to the sequential model `Eval.jobEvaluate` (Model/Eval.lean, properties
+C05/C06), and that model is tied to the current source by translation (`Tie/Eval.lean`: the function
+regenerated from artap/job.py on every run *is* `Eval.jobEvaluate`).  The theorems below close the gap
+between the two hand-written models: under the abstraction map `ConcEval.absDesign` (Proofs/ConcEval.lean)
+five steps of `jobProg P` compute what `Eval.jobEvaluate` computes on the success path.  The corollary
+about the generated function lives in `Tie/ConcEval.lean` (`parallel_eq_generated_serial`), because the
+root library must not depend on a regenerated file.
+
+Hypotheses: `Abs c e` – the record `c` of the schedule model is the image of the design `e` of the sequential
+model (vector, state, costs, signed costs, marker, feasibility; the incoming value of the output field `skip`
+is irrelevant); `Agree P env e` – same constraint values at `e`'s vector, same signs, `P.rnd` is
+`env.rnd e.prec` on the objective's values, and the first objective call on `e` succeeds with `P.obj e.vec`.
+`Agree` is needed only for a design that is not yet evaluated.  No hypothesis on the state: the two models
+agree for every state (`EMPTY` and `EVALUATED` are the ones the C07 harness hands to `evaluate`). -/
+section Refinement
+open Artap.ConcEval
+
+/-- **Refinement.**  Five steps of `jobProg P` on `c` (what `job_alone` computes) against
+`Eval.jobEvaluate env e w`: no error; the final record is the image of the final design, with
+`skip` set exactly for an evaluated design; the row written to the store is the image of the final design
+(nothing is written for an evaluated design); the number of objective calls is 0 for an evaluated design
+and 1 otherwise, and it is the number of entries `(e.key, e.vec)` by which the call log and the ghost call
+counter of the sequential model advance; `Problem.failed` is untouched; and the marker of a newly
+evaluated design is exactly the 0/1 value of the schedule model's Boolean marker (so nothing is lost in
+`absMarker`). -/
+theorem jobProg_refines_jobEvaluate (P : Prob) (env : Eval.Env) (c : Design) (e : Eval.Design) (w : Eval.World)
+    (hc : Abs c e) (hA : e.state ≠ .evaluated → Agree P env e) :
+    let out := Eval.jobEvaluate env e w
+    let n := tcalls (jobProg P) 5 (c, none, 0)
+    out.1 = none ∧
+    iter (tstep (jobProg P)) 5 (c, none, 0) =
+      ({ absDesign out.2.1 with skip := decide (e.state = .evaluated) },
+       (if e.state = .evaluated then none else some (absRow out.2.1)), 5) ∧
+    n = (if e.state = .evaluated then 0 else 1) ∧
+    out.2.2.log = w.log ++ List.replicate n (e.key, e.vec) ∧
+    out.2.2.failed = w.failed ∧
+    out.2.1.ncalls = e.ncalls + n ∧
+    (e.state ≠ .evaluated → out.2.1.marker = some (b2i (absDesign out.2.1).marker)) := by
+  intro out n
+  by_cases hs : e.state = .evaluated
+  · have h1 := jobEvaluate_skip env e w hs
+    have h2 := jobProg_skip P hc hs
+    have hout : out = (none, e, w) := h1
+    have hn : n = 0 := h2.2
+    rw [hout, hn, h2.1]
+    simp [hs]
+  · have h1 := jobEvaluate_success w hs (hA hs)
+    have h2 := jobProg_success hc hs (hA hs)
+    have hout : out = (none, Eval.succeed env e (P.obj e.vec), Eval.logCall e w) := h1
+    have hn : n = 1 := h2.2
+    rw [hout, hn, h2.1]
+    refine ⟨rfl, ?_, ?_, ?_, ?_, ?_, ?_⟩
+    · simp [hs, absDesign]
+    · simp [hs]
+    · simp [Eval.logCall]
+    · rfl
+    · rfl
+    · intro _
+      exact marker_exact _
+
+/-- The same statement for the specification `finalDesign` / `finalRow` used by `parallel_fields`. -/
+theorem finalDesign_refines_jobEvaluate (P : Prob) (env : Eval.Env) (c : Design) (e : Eval.Design) (w : Eval.World)
+    (hc : Abs c e) (hA : e.state ≠ .evaluated → Agree P env e) :
+    finalDesign P c = { absDesign (Eval.jobEvaluate env e w).2.1 with skip := decide (e.state = .evaluated) } ∧
+    finalRow P c = (if e.state = .evaluated then none else some (absRow (Eval.jobEvaluate env e w).2.1)) ∧
+    (c.state = St.evaluated ↔ e.state = .evaluated) := by
+  have h := (jobProg_refines_jobEvaluate P env c e w hc hA).2.1
+  rw [(job_alone P c).1] at h
+  simp only [Prod.mk.injEq, and_true] at h
+  refine ⟨h.1, h.2, ?_⟩
+  have hst : c.state = absSt e.state := congrArg Design.state hc
+  rw [hst]
+  exact absSt_evaluated _
+
+/-- **Parallel = sequential model.**  For every batch `ds` of the schedule model that stands, design by
+design, for a list `es` of designs of the sequential model, and every complete schedule: design `t` ends
+with the image of what `Eval.jobEvaluate` returns for `es[t]` (started from any world `w`), its store row
+is the image of that final design, and its number of objective calls is the number of entries by which
+`Eval.jobEvaluate` extends the call log and the ghost call counter. -/
+theorem parallel_eq_jobEvaluate (P : Prob) (env : Eval.Env) (ds : List Design) (es : List Eval.Design)
+    (habs : ∀ (t : Nat) (c : Design) (e : Eval.Design), ds[t]? = some c → es[t]? = some e → Abs c e)
+    (hagree : ∀ e, e ∈ es → e.state ≠ .evaluated → Agree P env e)
+    (σ : List Nat) (hσ : ∀ t, t < ds.length → σ.count t = 5)
+    (t : Nat) (e : Eval.Design) (ht : t < ds.length) (het : es[t]? = some e) (w : Eval.World) :
+    let r := run (jobProg P) σ (init ds)
+    let out := Eval.jobEvaluate env e w
+    out.1 = none ∧
+    r.locals[t]? = some { absDesign out.2.1 with skip := decide (e.state = .evaluated) } ∧
+    r.store[t]? = some (if e.state = .evaluated then none else some (absRow out.2.1)) ∧
+    r.calls.count t = (if e.state = .evaluated then 0 else 1) ∧
+    out.2.2.log = w.log ++ List.replicate (r.calls.count t) (e.key, e.vec) ∧
+    out.2.2.failed = w.failed ∧
+    out.2.1.ncalls = e.ncalls + r.calls.count t := by
+  intro r out
+  have hc : Abs ds[t] e := habs t ds[t] e (List.getElem?_eq_getElem ht) het
+  have hA : e.state ≠ .evaluated → Agree P env e := hagree e (List.mem_of_getElem? het)
+  obtain ⟨p1, p2, p3⟩ := parallel_fields P ds σ hσ t ht
+  obtain ⟨q1, q2, q3⟩ := finalDesign_refines_jobEvaluate P env ds[t] e w hc hA
+  obtain ⟨r1, _, r3, r4, r5, r6, _⟩ := jobProg_refines_jobEvaluate P env ds[t] e w hc hA
+  have hcnt : r.calls.count t = tcalls (jobProg P) 5 (ds[t], none, 0) := by
+    rw [r3]; show (run (jobProg P) σ (init ds)).calls.count t = _
+    rw [p3]; simp only [q3]
+  refine ⟨r1, ?_, ?_, ?_, ?_, r5, ?_⟩
+  · show (run (jobProg P) σ (init ds)).locals[t]? = _
+    rw [p1, q1]
+  · show (run (jobProg P) σ (init ds)).store[t]? = _
+    rw [p2, q2]
+  · rw [hcnt, r3]
+  · rw [hcnt]; exact r4
+  · rw [hcnt]; exact r6
+
+/-- **Parallel = `evaluate_serial` of the sequential model.**  `Eval.evalSerial` is the loop of
+`Evaluator.evaluate_serial` (it hands only `EMPTY` designs to `Job.evaluate`, whereas `evaluate_parallel`
+hands over every design – the two differ on designs in state `IN_PROGRESS`/`FAILED`, hence the hypothesis on
+the states, which are the ones the C07 harness uses).  For a batch of `EMPTY`/`EVALUATED` designs on the
+success path and every complete schedule: the serial loop raises nothing, the records after the parallel
+run are the images of the designs after the serial loop, the store holds the image of every newly evaluated
+design, the serial call log grows by one entry per not yet evaluated design (in batch order), and the
+parallel run attributes to design `t` exactly as many calls as the serial loop makes for it. -/
+theorem parallel_eq_evalSerial (P : Prob) (env : Eval.Env) (ds : List Design) (es : List Eval.Design)
+    (hlen : ds.length = es.length)
+    (habs : ∀ (t : Nat) (c : Design) (e : Eval.Design), ds[t]? = some c → es[t]? = some e → Abs c e)
+    (hagree : ∀ e, e ∈ es → e.state ≠ .evaluated → Agree P env e)
+    (hst : ∀ e, e ∈ es → e.state = .empty ∨ e.state = .evaluated)
+    (σ : List Nat) (hσ : ∀ t, t < ds.length → σ.count t = 5) (w : Eval.World) :
+    let r := run (jobProg P) σ (init ds)
+    let s := Eval.evalSerial env es w
+    s.1 = none ∧
+    r.locals = List.zipWith (fun e e' => { absDesign e' with skip := decide (e.state = .evaluated) }) es s.2.1 ∧
+    r.store = List.zipWith (fun e e' => if e.state = .evaluated then none else some (absRow e')) es s.2.1 ∧
+    s.2.2.log = w.log ++ serialCalls es ∧
+    s.2.2.failed = w.failed ∧
+    (∀ t e, es[t]? = some e → r.calls.count t = (serialCalls [e]).length) := by
+  intro r s
+  have hs : s = (none, es.map (serialResult P env), { log := w.log ++ serialCalls es, failed := w.failed }) :=
+    evalSerial_success es w hagree hst
+  have hwf := run_wf (jobProg P) (init_wf (B := Row) ds) σ
+  obtain ⟨w1, w2, _⟩ := hwf
+  have key : ∀ t e, es[t]? = some e →
+      r.locals[t]? = some { absDesign (serialResult P env e) with skip := decide (e.state = .evaluated) } ∧
+      r.store[t]? = some (if e.state = .evaluated then none else some (absRow (serialResult P env e))) ∧
+      r.calls.count t = (if e.state = .evaluated then 0 else 1) := by
+    intro t e het
+    have ht : t < ds.length := by
+      have := (List.getElem?_eq_some_iff.1 het).1; omega
+    have hA := hagree e (List.mem_of_getElem? het)
+    obtain ⟨_, a2, a3, a4, _⟩ := parallel_eq_jobEvaluate P env ds es habs hagree σ hσ t e ht het w
+    rw [jobEvaluate_serialResult w hA] at a2 a3
+    exact ⟨a2, a3, a4⟩
+  rw [hs]
+  refine ⟨rfl, ?_, ?_, rfl, rfl, ?_⟩
+  · apply List.ext_getElem?
+    intro t
+    simp only [List.getElem?_zipWith, List.getElem?_map]
+    cases het : es[t]? with
+    | none =>
+      have : es.length ≤ t := List.getElem?_eq_none_iff.1 het
+      rw [List.getElem?_eq_none_iff]
+      show (run (jobProg P) σ (init ds)).locals.length ≤ t
+      omega
+    | some e => simp [(key t e het).1]
+  · apply List.ext_getElem?
+    intro t
+    simp only [List.getElem?_zipWith, List.getElem?_map]
+    cases het : es[t]? with
+    | none =>
+      have : es.length ≤ t := List.getElem?_eq_none_iff.1 het
+      rw [List.getElem?_eq_none_iff]
+      show (run (jobProg P) σ (init ds)).store.length ≤ t
+      omega
+    | some e => simp [(key t e het).2.1]
+  · intro t e het
+    rw [(key t e het).2.2]
+    by_cases h : e.state = .evaluated <;> simp [serialCalls, h]
+
+end Refinement
+
 /-! ## Non-vacuity: a concrete batch, problem and an interleaved complete schedule -/
 
 def exP : Prob := { obj := fun v => 7 :: v, cons := fun _ => [], signs := [1], rnd := id }
@@ -134,5 +314,85 @@ def exSched : List Nat := [1, 0, 0, 1, 1, 0, 1, 0, 0, 1]
 
 example : ∀ t, t < exBatch.length → exSched.count t = 5 := by decide
 example : ((run (jobProg exP) exSched (init exBatch)).locals.map (·.costs)) = [[7, 1], [7, 3]] := by decide
+
+
+/-! ### Non-vacuity of the refinement hypotheses
+
+A problem with a constraint (`x - 2 < 0`), two objectives with signs `1, -1`, rounding to two decimals that
+really rounds (`1/3 ↦ 0.33`), and a batch with a feasible new design, an already evaluated design and an
+infeasible new design. -/
+
+def exEnv : Eval.Env :=
+  { obj := fun _ _ v => .ok (v.map (· * 2) ++ [1 / 3]), reroll := fun _ _ => [],
+    cons := fun v => v.map (· - 2), signs := [1, -1], rnd := Eval.roundDec }
+def exP2 : Prob :=
+  { obj := fun v => v.map (· * 2) ++ [1 / 3], cons := fun v => v.map (· - 2), signs := [1, -1],
+    rnd := Eval.roundDec 2 }
+def exEs : List Eval.Design :=
+  [ Eval.fresh 0 2 [1],
+    { key := 1, vec := [5], state := .evaluated, costs := [10, 1 / 3], signed := [10, -33 / 100],
+      marker := some 1, feasible := .no, prec := 2, ncalls := 1 },
+    Eval.fresh 2 2 [3] ]
+def exSched3 : List Nat := [2, 0, 1, 1, 0, 2, 2, 0, 1, 0, 2, 1, 1, 0, 2]
+
+example : ∀ e, e ∈ exEs → e.state ≠ .evaluated → ConcEval.Agree exP2 exEnv e := by
+  intro e he hs
+  simp only [exEs, List.mem_cons, List.not_mem_nil, or_false] at he
+  rcases he with rfl | rfl | rfl
+  · exact ⟨rfl, rfl, fun _ _ => rfl, rfl⟩
+  · exact absurd rfl hs
+  · exact ⟨rfl, rfl, fun _ _ => rfl, rfl⟩
+
+example : ∀ (t : Nat) (c : Design) (e : Eval.Design),
+    (exEs.map ConcEval.absDesign)[t]? = some c → exEs[t]? = some e → ConcEval.Abs c e := by
+  intro t c e h1 h2
+  rw [List.getElem?_map, h2] at h1
+  cases h1
+  exact ConcEval.abs_absDesign e
+
+example : ∀ t, t < (exEs.map ConcEval.absDesign).length → exSched3.count t = 5 := by decide
+
+/-- The theorem instantiated on this batch (all hypotheses discharged). -/
+example (t : Nat) (e : Eval.Design) (ht : t < (exEs.map ConcEval.absDesign).length) (het : exEs[t]? = some e)
+    (w : Eval.World) :=
+  parallel_eq_jobEvaluate exP2 exEnv (exEs.map ConcEval.absDesign) exEs
+    (by intro t c e h1 h2
+        rw [List.getElem?_map, h2] at h1
+        cases h1
+        exact ConcEval.abs_absDesign e)
+    (by intro e he hs
+        simp only [exEs, List.mem_cons, List.not_mem_nil, or_false] at he
+        rcases he with rfl | rfl | rfl
+        · exact ⟨rfl, rfl, fun _ _ => rfl, rfl⟩
+        · exact absurd rfl hs
+        · exact ⟨rfl, rfl, fun _ _ => rfl, rfl⟩)
+    exSched3 (by decide) t e ht het w
+
+example : ∀ e, e ∈ exEs → e.state = .empty ∨ e.state = .evaluated := by
+  intro e he
+  simp only [exEs, List.mem_cons, List.not_mem_nil, or_false] at he
+  rcases he with rfl | rfl | rfl
+  · exact Or.inl rfl
+  · exact Or.inr rfl
+  · exact Or.inl rfl
+
+/-- What the interleaved run leaves behind (the parts that do not need rational arithmetic in the kernel;
+`#eval` gives signed costs `[2, -33/100]`, `[10, -33/100]`, `[6, -33/100]` and markers `false, true, true`
+for both models). -/
+example :
+    let r := run (jobProg exP2) exSched3 (init (exEs.map ConcEval.absDesign))
+    (r.locals.map (fun d => (d.state, d.skip)), r.store.map Option.isSome, [0, 1, 2].map (fun t => r.calls.count t)) =
+      ([(St.evaluated, false), (St.evaluated, true), (St.evaluated, false)], [true, false, true], [1, 0, 1]) := by
+  decide
+
+/-- Why `parallel_eq_evalSerial` needs the hypothesis on the states (it is not a disagreement between the two
+models of `Job.evaluate`, which agree for every state, but a difference between the two loops of
+`Evaluator`): `evaluate_serial` leaves a `FAILED` design alone, `evaluate_parallel` evaluates it. -/
+example :
+    let eF : Eval.Design := { Eval.fresh 0 2 [1] with state := .failed }
+    (Eval.evalSerial exEnv [eF] ⟨[], []⟩).2.1.map (·.state) = [.failed] ∧
+    (Eval.evalSerial exEnv [eF] ⟨[], []⟩).2.2.log.length = 0 ∧
+    (run (jobProg exP2) [0, 0, 0, 0, 0] (init [ConcEval.absDesign eF])).locals.map (·.state) = [St.evaluated] ∧
+    (run (jobProg exP2) [0, 0, 0, 0, 0] (init [ConcEval.absDesign eF])).calls = [0] := by decide
 
 end Artap.C07
